@@ -213,7 +213,11 @@ func (g *gen) atom() val {
 		return vStr(g.str())
 	case x < 75:
 		// (the one-letter symbol t is the constant, and slip's reader turns 't into another symbol)
-		return vSym(g.word(2+g.r.Intn(2), false) + []string{"", "", "1", "2"}[g.r.Intn(4)])
+		name := g.word(2+g.r.Intn(2), false) + []string{"", "", "1", "2"}[g.r.Intn(4)]
+		if name == "nil" { // 'nil is the empty list, not a symbol of its own
+			return vNil
+		}
+		return vSym(name)
 	case x < 83:
 		return vChr(common.Pick(g.r, charPool))
 	case x < 90:
